@@ -75,6 +75,22 @@ class NF:
         return " + ".join(parts)
 
 
+MASK_MARKERS = (" NotEq ", " Eq ", " Lt ", " LtE ", " Gt ", " GtE ", " Is ", " IsNot ", "if(", "logical_", "where(", "isclose(", "isfinite(", "isnan(", "signbit(")
+
+
+def _skeleton(nf):
+    """the normal form with every mask / selection atom replaced by one placeholder"""
+    out = {}
+    for k, v in nf.t.items():
+        mono = {}
+        for atom_, e in k:
+            name = "<mask>" if any(m_ in atom_ for m_ in MASK_MARKERS) else atom_
+            mono[name] = mono.get(name, 0) + e
+        key = tuple(sorted(mono.items()))
+        out[key] = out.get(key, 0) + v
+    return tuple(sorted((k, v) for k, v in out.items() if v != 0))
+
+
 class Canon:
     def __init__(self, world, prim, nin):
         self.world, self.ev = world, world.ev
@@ -308,6 +324,12 @@ def agree(ctx, world):
             inst = f"{pid}[{k}]"
             if a.key() == b.key():
                 ctx.ob("A5", inst, True, ve.loc, sample=a.text()[:160])
+            elif _skeleton(a) == _skeleton(b):
+                # the two factors have the same rational structure and differ only inside a selection / mask
+                # sub-expression (comparison, logical_*, where, conditional on an optional bound ...), which this
+                # normal form treats as an uninterpreted atom: two spellings of the same mask (ans != None versus
+                # ans != -inf for an absent bound) cannot be told apart from different masks - undecided, not a verdict
+                ctx.ob("A5", inst, None, ve.loc, sample=f"masks differ: vjp {a.text()[:100]} | jvp {b.text()[:100]}")
             else:
                 ctx.fail(
                     "A5",
